@@ -9,6 +9,7 @@ import dns.rdata
 import dns.rdataset
 import dns.rdatatype
 import dns.transaction
+import dns.btreezone
 import dns.versioned
 import dns.zone
 
@@ -30,7 +31,7 @@ ASSUMPTIONS = [
     "'started waiting' = creation of the waiter Event (done under the zone lock immediately before it is queued)",
     "an additional uncontrolled stress run with real threading checks mutual exclusion and the final state only",
 ]
-REQUIRED = ["mon.schedules_run_to_quiescence", "mon.mutual_exclusion", "mon.fifo_admission", "mon.final_state_serial", "mon.solo_reader", "mon.schedules_with_waiting", "mon.uncontrolled_transactions"]
+REQUIRED = ["mon.histories_with_replacement_writers", "mon.histories_on_btree_zone", "mon.schedules_run_to_quiescence", "mon.mutual_exclusion", "mon.fifo_admission", "mon.final_state_serial", "mon.solo_reader", "mon.schedules_with_waiting", "mon.uncontrolled_transactions"]
 BUDGET = {"quick": 45.0, "thorough": 480.0}
 
 ORIGIN = dns.name.from_text("example.")
@@ -49,8 +50,9 @@ def txt(n):
     return dns.rdata.from_text("IN", "TXT", f'"{n}"')
 
 
-def new_zone():
-    z = dns.versioned.Zone(ORIGIN)
+def new_zone(opts=None):
+    # the dict-backed versioned zone or its B-tree subclass (same admission code, its own way of building the next version)
+    z = (dns.btreezone.Zone if opts and opts.get("zone") == "btree" else dns.versioned.Zone)(ORIGIN)
     z.set_max_versions(None)
     with z.writer() as txn:
         txn.add(dns.name.empty, 300, dns.rdata.from_text("IN", "SOA", "ns hostmaster 1 2 3 4 5"))
@@ -65,16 +67,21 @@ def zone_state(txn):
     return counter, tuple(uniq)
 
 
-def writer_body(sc, z, wid, commit, second, log):
+def writer_body(sc, z, wid, commit, second, log, repl=False):
     def body():
         for k in range(2 if second else 1):
             sc.log("call", wid)
-            txn = z.writer()
+            txn = z.writer(True) if repl else z.writer()
             sc.log("admit", wid)
             sc.pause("client:admitted")
             try:
-                cur = txn.get(COUNTER, "TXT")
-                old = int(cur[0].strings[0])
+                if repl:
+                    # a replacement transaction (a reload): starts empty; the committed zone holds only what it adds
+                    txn.add(dns.name.empty, 300, dns.rdata.from_text("IN", "SOA", "ns hostmaster 1 2 3 4 5"))
+                    old = 1000 * (wid + 1) - 1
+                else:
+                    cur = txn.get(COUNTER, "TXT")
+                    old = int(cur[0].strings[0])
                 sc.pause("client:read")
                 txn.replace(COUNTER, 0, txt(old + 1))
                 sc.pause("client:wrote-counter")
@@ -93,7 +100,7 @@ def writer_body(sc, z, wid, commit, second, log):
     return body
 
 
-def check_history(ctx, sc, z, plan, case, tag):
+def check_history(ctx, sc, z, plan, case, tag, opts=None):
     """monitors over the recorded event log + final state"""
     ev = sc.events
     # Exact moments from the shim log: a writer is admitted inside its last zone-lock section before writer() returns
@@ -152,9 +159,13 @@ def check_history(ctx, sc, z, plan, case, tag):
     counter = 0
     uniq = set()
     prefixes = [(0, ())]
+    repl = set((opts or {}).get("repl", ()))
     for wid, k, did in seq:
         if did:
-            counter += 1
+            if wid in repl:
+                counter, uniq = 1000 * (wid + 1), set()
+            else:
+                counter += 1
             uniq.add(f"u{wid}x{k}")
             prefixes.append((counter, tuple(sorted(uniq))))
     with z.reader() as r:
@@ -177,7 +188,7 @@ def check_history(ctx, sc, z, plan, case, tag):
     return True, prefixes
 
 
-def run_schedule(ctx, strategy, plan, inj, line_p, rng, tag, case, dfs=False):
+def run_schedule(ctx, strategy, plan, inj, line_p, rng, tag, case, dfs=False, opts=None):
     """plan: list of (commit tuple, second flag) per writer"""
     sc = S.Scheduler(strategy, max_steps=30000)
     shim = S.ShimThreading(sc)
@@ -186,9 +197,12 @@ def run_schedule(ctx, strategy, plan, inj, line_p, rng, tag, case, dfs=False):
     solo = {"n": 0, "bad": None}
     prefixes_seen = []
     try:
-        z = new_zone()
+        z = new_zone(opts)
+        if opts:
+            ctx.count("mon.histories_with_replacement_writers" if opts.get("repl") else "mon.histories_without_replacement_writers")
+            ctx.count("mon.histories_on_btree_zone" if opts.get("zone") == "btree" else "mon.histories_on_dict_zone")
         for wid, (commit, second) in enumerate(plan):
-            sc.spawn(writer_body(sc, z, wid, commit, second, None), f"w{wid}")
+            sc.spawn(writer_body(sc, z, wid, commit, second, None, repl=bool(opts) and wid in opts.get("repl", ())), f"w{wid}")
         if inj is not None:
             inj.attach(sc, (lambda: rng.random() < line_p) if line_p > 0 else (lambda: False))
 
@@ -237,7 +251,7 @@ def run_schedule(ctx, strategy, plan, inj, line_p, rng, tag, case, dfs=False):
             if t.exc is not None:
                 ctx.violation(f"writer-thread-raised:{tag}:" + core.exc_sig(t.exc), repr(t.exc), dict(case, choices=sc.choices[:400]))
                 return sc
-        res = check_history(ctx, sc, z, plan, dict(case, choices=sc.choices[:400]), tag)
+        res = check_history(ctx, sc, z, plan, dict(case, choices=sc.choices[:400]), tag, opts)
         if res is False:
             return sc
         _, prefixes = res
@@ -252,6 +266,10 @@ def run_schedule(ctx, strategy, plan, inj, line_p, rng, tag, case, dfs=False):
         return sc
     finally:
         dns.versioned.threading = saved
+
+
+def gen_opts(rng, plan):
+    return {"zone": rng.choice(("versioned", "versioned", "btree")), "repl": {w for w in range(len(plan)) if rng.random() < 0.2}}
 
 
 def gen_plan(rng, n=None):
@@ -374,7 +392,8 @@ def run(spec, ctx):
             ctx.count("evaluations")
             plan = gen_plan(rng)
             line_p = rng.choice((0.0, 0.05, 0.2, 0.5, 1.0))
-            sc = run_schedule(ctx, S.RandomStrategy(rng, stay=rng.choice((0.3, 0.6, 0.85))), plan, inj, line_p, rng, "random", {"kind": "random", "plan": plan, "line_p": line_p})
+            opts = gen_opts(rng, plan)
+            sc = run_schedule(ctx, S.RandomStrategy(rng, stay=rng.choice((0.3, 0.6, 0.85))), plan, inj, line_p, rng, "random", {"kind": "random", "plan": plan, "line_p": line_p, "opts": {k: sorted(v) if isinstance(v, set) else v for k, v in opts.items()}}, opts=opts)
             if i < 1:
                 ctx.sample({"plan": plan, "line_p": line_p, "trace_head": sc.trace[:25], "events_head": [e[1:4] for e in sc.events[:20]]})
         for i in range(spec["n_pct"]):
@@ -383,7 +402,8 @@ def run(spec, ctx):
             ctx.count("evaluations")
             plan = gen_plan(rng)
             line_p = rng.choice((0.2, 1.0))
-            run_schedule(ctx, S.PCTStrategy(rng, len(plan), depth=rng.choice((1, 2, 3)), horizon=rng.choice((50, 300))), plan, inj, line_p, rng, "pct", {"kind": "pct", "plan": plan, "line_p": line_p})
+            opts = gen_opts(rng, plan)
+            run_schedule(ctx, S.PCTStrategy(rng, len(plan), depth=rng.choice((1, 2, 3)), horizon=rng.choice((50, 300))), plan, inj, line_p, rng, "pct", {"kind": "pct", "plan": plan, "line_p": line_p, "opts": {k: sorted(v) if isinstance(v, set) else v for k, v in opts.items()}}, opts=opts)
         ctx.count("mon.line_events", inj.count)
     finally:
         inj.uninstall()
@@ -402,4 +422,6 @@ def replay(case, ctx):
     plan = [tuple((tuple(c), s)) for c, s in case["plan"]]
     choices = case.get("choices") or case.get("prefix") or []
     rng = random.Random(0)
-    run_schedule(ctx, S.PrefixStrategy(choices), plan, None, 0.0, rng, "replay", {"kind": "replay", "plan": case["plan"]})
+    o = case.get("opts")
+    opts = {"zone": o.get("zone"), "repl": set(o.get("repl", ()))} if o else None
+    run_schedule(ctx, S.PrefixStrategy(choices), plan, None, 0.0, rng, "replay", {"kind": "replay", "plan": case["plan"]}, opts=opts)
